@@ -316,6 +316,17 @@ var builtinMap = map[string]code{
 	"copy":   codeCopy,
 }
 
+// tupleNeedsOrder reports whether the order in which a tuple assignment stores can be observed: some target is an
+// element or a field (two targets may alias, an index operand may be a variable assigned by the same statement).
+func tupleNeedsOrder(c *compiler, targets []*token) bool {
+	for _, arg := range targets {
+		if _, ok := c.importedGlobal(arg); !ok && (arg.Symbol == "index" || arg.Symbol == ".") {
+			return true
+		}
+	}
+	return false
+}
+
 // hasCall reports whether evaluating the expression may run script or native code (a call or a function literal).
 func hasCall(tok *token) bool {
 	if tok == nil {
@@ -530,6 +541,47 @@ func (c *compiler) compile(tok *token) []instruction {
 		c.FuncName = tmp
 
 	case "=":
+		if targets := tok.Tokens[0].Tokens; len(targets) > 1 && tupleNeedsOrder(c, targets) {
+			// a[i], b.f = x, y: Go evaluates the operands of the targets and the right-hand side first, then assigns
+			// left to right. Operands and values go through hidden slots so that this order holds.
+			const indexItem, indexKey = 0, 1
+			slot := func(i int, what string) reg { return reg(c.Locals.Index(fmt.Sprintf("%v#%d%s", tok.Pos, i, what))) }
+			for i, arg := range targets {
+				if _, ok := c.importedGlobal(arg); ok || (arg.Symbol != "index" && arg.Symbol != ".") {
+					continue
+				}
+				res = append(res, c.compile(arg.Tokens[indexItem])...)
+				res = append(res, instruction{Code: codeLocalSet, A: slot(i, "item")})
+				if arg.Symbol == "index" {
+					res = append(res, c.compile(arg.Tokens[indexKey])...)
+					res = append(res, instruction{Code: codeLocalSet, A: slot(i, "key")})
+				}
+			}
+			res = append(res, c.compile(tok.Tokens[1])...)
+			for i := len(targets) - 1; i >= 0; i-- {
+				res = append(res, instruction{Code: codeLocalSet, A: slot(i, "val")})
+			}
+			for i, arg := range targets {
+				if arg.Text == "_" {
+					continue
+				}
+				res = append(res, instruction{Code: codeLocalGet, A: slot(i, "val")})
+				if idx, ok := c.importedGlobal(arg); ok {
+					res = append(res, instruction{Code: codeGlobalSet, A: reg(idx)})
+				} else if arg.Symbol == "index" {
+					res = append(res, instruction{Code: codeLocalGet, A: slot(i, "item")}, instruction{Code: codeLocalGet, A: slot(i, "key")})
+					res = append(res, instruction{Code: codeSet, Pos: c.posOf(arg)})
+				} else if arg.Symbol == "." {
+					res = append(res, instruction{Code: codeLocalGet, A: slot(i, "item")})
+					res = append(res, instruction{Code: codeSetAttr, A: reg(c.Globals.Index(arg.Tokens[indexKey].Text)), Pos: c.posOf(arg)})
+				} else if c.Locals.Exists(arg.Text) {
+					res = append(res, instruction{Code: codeLocalSet, A: reg(c.Locals.Index(arg.Text))})
+				} else {
+					res = append(res, instruction{Code: codeGlobalSet, A: reg(c.Globals.Index(c.expPrefix(arg.Text)))})
+				}
+			}
+			break
+		}
 		res = append(res, c.compile(tok.Tokens[1])...)
 		for i := 1; i <= len(tok.Tokens[0].Tokens); i++ {
 			arg := tok.Tokens[0].Tokens[len(tok.Tokens[0].Tokens)-i]
